@@ -230,7 +230,15 @@ pub fn gating_oracle(text: &str, ctx: &mut Ctx) {
         )
     });
     match r {
-        Err(_) => ctx.count("skipped_analysis_panics", 1),
+        Err(pi) => {
+            if has_syntax_diag {
+                // with a syntax diagnostic the analyser must not even run: a panic here is a
+                // gating failure, not an unsupported construct
+                ctx.fail_text("gating", text, &pi.locus(), format!("the source has syntax diagnostics, yet the pipeline panicked instead of returning an empty program: {}", pi.message));
+            } else {
+                ctx.count("skipped_analysis_panics", 1)
+            }
+        }
         Ok((any_syn, nstmts, any_sem, nsem)) => {
             ctx.outcome(fnv_mix(fnv_mix(any_syn as u64, nstmts.min(3) as u64), (nsem.min(3) as u64) << 2 | p.have_parse() as u64));
             if stmts_other >= 1 {
